@@ -13,7 +13,7 @@ import io
 import sys
 
 from dsim import sched, seams
-from dsim.programs import InjectedFault
+from dsim.programs import FAULTS, InjectedFault, InjectedInterrupt
 from dsim.seams import SimClock, SimFile
 
 PROP = "C20"
@@ -46,7 +46,7 @@ def gen_ops(rng, depth, budget, fid, npool=4):
             ops.append(["push", rng.randrange(npool), rng.random() < 0.6, gen_ops(rng, depth + 1, budget, fid)])
         elif r < 0.82 and depth > 0:
             fid[0] += 1
-            ops.append(["raise", fid[0]])
+            ops.append(["raise", fid[0], rng.random() < 0.3])  # 30%: a bare BaseException
             break
         elif r < 0.92 and depth < 4:
             ops.append(["catch", gen_ops(rng, depth + 1, budget, fid)])
@@ -228,7 +228,7 @@ class Prog:
             try:
                 with Live("frame", console=self.console, auto_refresh=False):
                     self.run_top()
-            except InjectedFault:
+            except FAULTS:
                 self._v("propagation", "fault-escaped-catch", "an injected fault escaped every catch block")
             if not self._cursor_visible():
                 self._v("cleanup", "cursor-hidden-after-exit", "cursor hidden after the Live block around the theme program exited")
@@ -278,7 +278,7 @@ class Prog:
                             self.run_ops(body, depth + 1)
                         finally:
                             con.pop_theme()
-                except InjectedFault:
+                except FAULTS:
                     self.probes["unwound_blocks"] += 1
                     raise
                 finally:
@@ -290,14 +290,14 @@ class Prog:
                     raise sched.HarnessError("model: pop did not restore lookups")
                 self.check_all("after leaving %s block" % k)
             elif k == "raise":
-                f = InjectedFault("C20-%d" % op[1])
+                f = (InjectedInterrupt if len(op) > 2 and op[2] else InjectedFault)("C20-%d" % op[1])
                 self.raised = f
                 self.raise_depth = depth
                 raise f
             elif k == "catch":
                 try:
                     self.run_ops(op[1], depth + 1)
-                except InjectedFault as e:
+                except FAULTS as e:
                     if e is not self.raised:
                         self._v("propagation", "fault-identity", "a different exception object arrived at the catch block")
                     self.probes["max_unwind_depth"] = max(self.probes["max_unwind_depth"], self.raise_depth - depth)
